@@ -7,6 +7,7 @@
 //   - reader runs atomically at a writer FS-call boundary (writer frozen mid write-out),
 //   - reader is frozen at one of its own FS calls while the writer performs 1-2 whole write-outs,
 //   - seeded random multi-switch schedules.
+//
 // Part B (stress): writer and concurrent readers free-running in one process (the topology of
 // goProbe's embedded query API); recorded histories are checked with porcupine per (iface, day).
 //
@@ -42,8 +43,8 @@ func init() {
 	fw.Register(&fw.Check{
 		ID:    "C30",
 		Level: "exploration",
-		Rule: "case kinds (by index mod 4): 0 = reader atomically at writer FS-call boundary k (all k of one history, sliced over cases), 1 = reader frozen at its FS call k while the writer performs 1-2 whole write-outs (all k), 2 = seeded random multi-switch schedule of both processes, 3 = in-process free-running stress (1 writer, 3 readers) checked with porcupine. " +
-			"History = 4-8 write-outs over 1-2 interfaces crossing a day boundary, each carrying a marker flow. Non-trivial/distinct = (kind, history, reader-event, writer-event) adjacency at which the other process ran.",
+		Rule: "case kinds (by index mod 4): 0 = reader atomically at writer FS-call boundary k (all k of one history, sliced over cases), 1 = reader frozen at its FS call k while the writer performs 1-2 whole write-outs (all k), 2 = seeded random multi-switch schedule of both processes, 3 = in-process free-running stress (1 writer, 3 readers) checked with porcupine, 4 = reader frozen at its j-th column/metadata open for one whole write-out and again at the next or next-but-one such open for another one (all j). " +
+			"History = 4-8 write-outs over 1-2 interfaces crossing a day boundary, each carrying a marker flow; every other history has fat write-outs (700 random-address flows: incompressible columns > 4 KiB that are rewritten raw and leave a tail behind the committed end of the column file). Non-trivial/distinct = (kind, history, reader-event, writer-event) adjacency at which the other process ran.",
 		Assumptions: []string{"interleavings are explored at file-system-call granularity (not every memory interleaving)", "page cache semantics of one host (both processes on the same machine)"},
 		NumCases: func(tier, variant string) int {
 			if variant == "race" {
@@ -53,24 +54,27 @@ func init() {
 				return 8
 			}
 			if tier == "thorough" {
-				return 1280 // 40 histories x 8 slots per schedule kind
+				return 1600 // 40 histories x 8 slots per schedule kind
 			}
-			return 32 // 1 history x 8 slots for kinds 0 and 1, 8 random schedules, 8 stress histories
+			return 40 // 1 history x 8 slots for kinds 0, 1 and 4, 8 random schedules, 8 stress histories
 		},
 		Variants:    func(tier string) []string { return []string{"default", "race"} },
 		Run:         run,
-		Require:     []string{"sched_reader_atomic", "sched_reader_frozen", "sched_random", "stress_histories", "reads_concurrent_with_writeout", "reads_seeing_partial_history"},
+		Require:     []string{"sched_reader_atomic", "sched_reader_frozen", "sched_reader_frozen_twice", "sched_random", "stress_histories", "reads_concurrent_with_writeout", "reads_seeing_partial_history"},
 		CaseTimeout: 300e9,
 	})
 }
 
 // genHistory: write-outs with marker flows (dport = index+1) on top of random flows.
-func genHistory(r *rand.Rand) *roles.History {
+// fatMode: 1 = with fat write-outs, 0 = without, -1 = drawn.
+func genHistory(r *rand.Rand, fatMode int) *roles.History {
 	base := gen.DayStart(gen.MinTS) + 86400*int64(1+r.Intn(11000))
 	nIf := 1 + r.Intn(2)
 	n := 4 + r.Intn(5)
 	ts := base + 86400 - 300*int64(1+r.Intn(3))
 	h := &roles.History{Encoder: int(encoders.EncoderTypeLZ4)}
+	fat := fatMode == 1 || fatMode < 0 && r.Intn(2) == 0 // every other history has write-outs with incompressible columns > 4 KiB
+	fatInLastDay := false                                // ... among them the first write-out of the second day, which most later write-outs append to
 	for k := 0; len(h.Outs) < n; k++ {
 		for i := 0; i < nIf && len(h.Outs) < n; i++ {
 			idx := len(h.Outs)
@@ -89,6 +93,26 @@ func genHistory(r *rand.Rand) *roles.History {
 				}
 				if !dup {
 					b.Flows = append(b.Flows, f)
+				}
+			}
+			if fat && (r.Intn(3) == 0 || gen.DayStart(ts) > gen.DayStart(base+86400-1) && !fatInLastDay) {
+				fatInLastDay = fatInLastDay || gen.DayStart(ts) > gen.DayStart(base+86400-1)
+				// a fat write-out: ~10 KiB of random addresses per IP column, which do not compress. The
+				// writer first emits the (larger) compressed form and then rewrites the block raw, which
+				// leaves bytes behind the committed end of the column file
+				seen := map[string]bool{}
+				for _, g := range b.Flows {
+					seen[g.KeyString()] = true
+				}
+				for j := 0; j < 700; j++ {
+					f := gen.RandFlow(r, gen.FlowOpts{V6Prob: 0.9, WideAlphabet: true})
+					if f.Dport > 0 && f.Dport <= 64 {
+						f.Dport += 1000
+					}
+					if !seen[f.KeyString()] {
+						seen[f.KeyString()] = true
+						b.Flows = append(b.Flows, f)
+					}
 				}
 			}
 			h.Outs = append(h.Outs, roles.WriteOut{Iface: []string{"eth0", "eth1"}[i], Block: b})
@@ -342,8 +366,8 @@ func (s *sched) finish(t *tracee) {
 }
 
 func run(c *fw.Case) {
-	kind := c.Idx % 4
-	group := c.Idx / 4
+	kind := c.Idx % nKinds
+	group := c.Idx / nKinds
 	if c.Variant == "race" {
 		kind = 3 // the schedules run separate (uninstrumented-equivalent) processes; only the in-process stress profits from -race
 	}
@@ -355,7 +379,11 @@ func run(c *fw.Case) {
 	const slots = 8
 	hidx, slot := group/slots, group%slots
 	hr := rand.New(rand.NewSource(c.Seed*7919 + int64(hidx)*104729 + 30 + int64(kind)))
-	h := genHistory(hr)
+	fatMode := -1
+	if kind == 1 || kind == 4 {
+		fatMode = 1 - hidx%2 // the frozen-reader kinds alternate; the first history (quick tier) is a fat one
+	}
+	h := genHistory(hr, fatMode)
 	histFile := c.Tmp + "/history.json"
 	h.Save(histFile)
 	self, _ := os.Executable()
@@ -442,6 +470,38 @@ func run(c *fw.Case) {
 			})
 			c.Count("sched_reader_frozen", 1)
 		}
+	case 4:
+		// reader frozen at its j-th column/metadata open while the writer performs one whole write-out,
+		// then frozen again at the next (or next-but-one) such open while the writer performs another
+		// one: two directory renames within one pass of the reader over a day, each landing before
+		// some lazily opened column file has been opened
+		if n < 4 {
+			return
+		}
+		pre := 1 + hr.Intn(n-3)
+		opens := 0
+		for _, e := range readerEvents(c, self, histFile, pre) {
+			e := e
+			if isColumnOpen(&e) {
+				opens++
+			}
+		}
+		for j := slot; j < 2*opens; j += slots {
+			first, gap := 1+j/2, 1+j%2
+			runSchedule(fmt.Sprintf("reader-frozen-at-open%d-and-%d-later-after-%d", first, gap, pre), func(s *sched) {
+				advanceWriteouts(s, pre)
+				if !advanceToColumnOpen(s, first) {
+					return
+				}
+				advanceWriteouts(s, 1)
+				s.advance(s.r, 1)
+				if !advanceToColumnOpen(s, gap) {
+					return
+				}
+				advanceWriteouts(s, 1)
+			})
+			c.Count("sched_reader_frozen_twice", 1)
+		}
 	default:
 		// random multi-switch schedule
 		sr := c.Rng
@@ -460,8 +520,34 @@ func run(c *fw.Case) {
 	c.Sample(map[string]any{"kind": kindName(kind), "history": hidx, "writeouts": n})
 }
 
+const nKinds = 5
+
 func kindName(k int) string {
-	return []string{"reader_atomic", "reader_frozen", "random", "stress"}[k]
+	return []string{"reader_atomic", "reader_frozen", "random", "stress", "reader_frozen_twice"}[k]
+}
+
+// isColumnOpen: the reader is about to open a column file or the metadata of a day directory (the
+// lazily opened files whose first open may fall before or after a directory rename).
+func isColumnOpen(e *ptr.Event) bool {
+	return e != nil && e.Sys == "openat" && (strings.HasSuffix(e.Path, ".gpf") || strings.HasSuffix(e.Path, ".blockmeta"))
+}
+
+// advanceToColumnOpen lets the reader run until it is held at its n-th next column / metadata open
+// (not yet executed); false if the reader finished first.
+func advanceToColumnOpen(s *sched, n int) bool {
+	for seen := 0; ; {
+		s.r.await()
+		if s.r.fin {
+			return false
+		}
+		if isColumnOpen(s.r.cur) {
+			seen++
+			if seen == n {
+				return true
+			}
+		}
+		s.advance(s.r, 1)
+	}
 }
 
 // advanceWriteouts lets the writer run until k more write-outs have completed.
@@ -478,6 +564,15 @@ func countEvents(c *fw.Case, self, histFile string, n int) int {
 	defer os.RemoveAll(db)
 	res := ptr.Run([]string{self, "-role", "dbwrite", db, histFile, "0", strconv.Itoa(n)}, ptr.Options{Roots: []string{db}})
 	return len(res.Events)
+}
+
+func readerEvents(c *fw.Case, self, histFile string, pre int) []ptr.Event {
+	db := c.Tmp + "/db-count"
+	os.MkdirAll(db, 0o755)
+	defer os.RemoveAll(db)
+	ptr.Run([]string{self, "-role", "dbwrite", db, histFile, "0", strconv.Itoa(pre)}, ptr.Options{Roots: []string{db}})
+	res := ptr.Run([]string{self, "-role", "dbread", db, c.Tmp + "/view-count"}, ptr.Options{Roots: []string{db}})
+	return res.Events
 }
 
 func countReaderEvents(c *fw.Case, self, histFile string, pre int) int {
@@ -500,7 +595,7 @@ type opIn struct {
 
 func stress(c *fw.Case) {
 	r := c.Rng
-	h := genHistory(r)
+	h := genHistory(r, -1)
 	db := c.Tmp + "/db"
 	os.MkdirAll(db, 0o755)
 	per := map[dayKey][]int{}
